@@ -12,7 +12,8 @@ hypotheses "every file is reported" is the bookkeeping of the flow, not a statem
                  catch-all handler returns the raw text;
   * `prepare`  : `get_program`'s hint handling on a hint-free text (total by the property's quantifier);
   * `parse`    : `ast.parse` — called by `ProgramParser.__call__` inside
-                 `try … except (SyntaxError, ValueError)`;
+                 `try … except (SyntaxError, ValueError, RecursionError)`;
+  * `flatten`  : `flatten_ast` — since fix d1e6a10 inside the same guarded block (non-empty trees only);
   * `isEmpty`  : `not tree.body`;
   * `features` : the rest of `ProgramParser.__call__` (regex features, SQL derivations).
 The importation closure and the database assembly are the C11 model (`Paroxy.DB.makeDb`).
@@ -22,7 +23,7 @@ namespace Paroxy.Collect
 open Paroxy Paroxy.DB
 
 /-- A Python exception, as far as the flow distinguishes: its class name and whether it is an
-instance of `SyntaxError` or `ValueError` (what `ProgramParser.__call__` catches). -/
+instance of `SyntaxError`, `ValueError` or `RecursionError` (what `ProgramParser.__call__` catches). -/
 structure Exc where
   name : Name
   caught : Bool
@@ -33,6 +34,10 @@ structure Ext (Tree : Type) where
   prepare : Name → Name
   parse : Name → Except Exc Tree
   isEmpty : Tree → Bool
+  /-- `flatten_ast(tree)` (fix d1e6a10: called inside the guarded block, for non-empty trees only): may
+  raise on a VALID program — `ValueError` (an integer literal too long for `str`), `RecursionError` (a
+  tree too deep for the recursive traversal) -/
+  flatten : Name → Tree → Except Exc Unit
   features : Name → Tree → Except Exc (List Label)
 
 def sAst : Name := [97, 115, 116, 95, 99, 111, 110, 115, 116, 114, 117, 99, 116, 105, 111, 110, 58] -- "ast_construction:"
@@ -52,7 +57,12 @@ def emptyLabel (src : Name) : Label := astLabel sEmpty src
 def parseProgram {Tree : Type} (X : Ext Tree) (src : Name) : Except Exc (List Label) :=
   match X.parse src with
   | .error e => if e.caught then .ok [astLabel e.name src] else .error e
-  | .ok t => if X.isEmpty t then .ok [emptyLabel src] else X.features src t
+  | .ok t =>
+    if X.isEmpty t then .ok [emptyLabel src]
+    else
+      match X.flatten src t with
+      | .error e => if e.caught then .ok [astLabel e.name src] else .error e
+      | .ok _ => X.features src t
 
 /-- `Cleanup("full").run = Cleanup.safe_full_cleaning` (fix c7d362e): ANY exception of the cleaning
 falls back to the uncleaned text, so that the parser reports the error. -/
